@@ -1,4 +1,101 @@
-import KpModel.Format.Kdbx4
+import KpModel.Props.C01
+/-!
+# C04 — only the exact credentials open a database (KDBX4)
+Property theorems only, over the faithful model of `decrypt_kdbx4`.  `IdealMac` is the idealisation of
+HMAC-SHA-256, stated as a hypothesis: the header MAC computed under the key derived from the wrong composite
+differs from the stored one.
+-/
 namespace Kp.Fmt
-theorem placeholder_C04 : True := trivial
+
+/-- the stored header MAC, as a function of the transformed key -/
+def headerMac (P : Prims) (c : Config) (t : Tape) (l : Layout) (tk : Bytes) : Bytes :=
+  P.hmac256 (blockKey P (P.sha512 (t.masterSeed ++ tk ++ [1])) u64Max) (outerHeaderBytes c t l)
+
+/-- up to the credential check, reading an assembled file is determined by the header -/
+theorem decrypt_until_key_check (P : Prims) (L : P.Laws) (c : Config) (t : Tape) (l : Layout)
+    (tk ct : Bytes) (H : HeaderOk c t l) (comp : Option Bytes) :
+    (comp = none → decrypt P (assemble P c t l tk ct) comp = .err .key)
+    ∧ (∀ cp, comp = some cp →
+        (∀ s, runKdf P c.kdf t.kdfSeed cp = .panic s → decrypt P (assemble P c t l tk ct) comp = .panic s)
+        ∧ (∀ e, runKdf P c.kdf t.kdfSeed cp = .err e → decrypt P (assemble P c t l tk ct) comp = .err e)
+        ∧ (∀ tk', runKdf P c.kdf t.kdfSeed cp = .ok tk' → headerMac P c t l tk' ≠ headerMac P c t l tk →
+            decrypt P (assemble P c t l tk ct) comp = .err .key)) := by
+  have hshaL : (P.sha256 (outerHeaderBytes c t l)).length = 32 := L.sha256_len _
+  have hmacL : (P.hmac256 (blockKey P (P.sha512 (t.masterSeed ++ tk ++ [1])) u64Max) (outerHeaderBytes c t l)).length = 32 :=
+    L.hmac_len _ _
+  unfold decrypt assemble headerMac
+  generalize hH : outerHeaderBytes c t l = header at *
+  generalize hS : P.sha256 header = sha at *
+  generalize hM : P.hmac256 (blockKey P (P.sha512 (t.masterSeed ++ tk ++ [1])) u64Max) header = mac at *
+  generalize hW : writeBlocksFrom P (P.sha512 (t.masterSeed ++ tk ++ [1])) 0 (l.blocks ct) = stream at *
+  have hp : parseOuterHeader (header ++ sha ++ mac ++ stream)
+      = .ok (⟨c.minor, c.outer, c.compression, t.masterSeed, t.iv, c.kdf, t.kdfSeed⟩, header.length) := by
+    have := parseOuterHeader_build c t l H (sha ++ mac ++ stream)
+    rw [hH] at this
+    simpa [List.append_assoc] using this
+  have s1 : slice "decrypt_kdbx4:index" (header ++ sha ++ mac ++ stream) 0 header.length = .ok header := by
+    have := slice_mid "decrypt_kdbx4:index" [] header (sha ++ mac ++ stream)
+    simpa [List.append_assoc] using this
+  have s2 : slice "decrypt_kdbx4:index" (header ++ sha ++ mac ++ stream) header.length (header.length + 32) = .ok sha := by
+    have := slice_mid "decrypt_kdbx4:index" header sha (mac ++ stream)
+    rw [hshaL] at this
+    simpa [List.append_assoc] using this
+  have s3 : slice "decrypt_kdbx4:index" (header ++ sha ++ mac ++ stream) (header.length + 32) (header.length + 64) = .ok mac := by
+    have := slice_mid "decrypt_kdbx4:index" (header ++ sha) mac stream
+    simp only [List.length_append, hshaL, hmacL] at this
+    have e : header.length + 32 + 32 = header.length + 64 := by omega
+    rw [e] at this
+    exact this
+  have s4 : slice "decrypt_kdbx4:index" (header ++ sha ++ mac ++ stream) (header.length + 64)
+      (header ++ sha ++ mac ++ stream).length = .ok stream := by
+    unfold slice
+    have : header.length + 64 ≤ (header ++ sha ++ mac ++ stream).length
+        ∧ (header ++ sha ++ mac ++ stream).length ≤ (header ++ sha ++ mac ++ stream).length := by
+      simp only [List.length_append, hshaL, hmacL]; omega
+    simp only [this, and_self, ↓reduceIte]
+    have hl : (header ++ sha ++ mac).length = header.length + 64 := by
+      simp only [List.length_append, hshaL, hmacL]
+    rw [List.drop_left' hl]
+    simp only [List.length_append, hshaL, hmacL]
+    have : header.length + 32 + 32 + stream.length - (header.length + 64) = stream.length := by omega
+    rw [this, List.take_length]
+  have hne : (sha != P.sha256 header) = false := by simp [hS]
+  simp only [bind, Outcome.bind, hp, s1, s2, s3, s4, hne, Bool.false_eq_true, ↓reduceIte]
+  refine ⟨fun h => by rw [h], fun cp h => ?_⟩
+  rw [h]
+  simp only
+  refine ⟨fun s hs => by rw [hs], fun e he => by rw [he], fun tk' hk hmacne => ?_⟩
+  rw [hk]
+  simp only
+  simp only [List.append_assoc] at hmacne
+  simp
+  intro h
+  exact absurd h.symm hmacne
+
+/-- **C04 (KDBX4).**  With a composite key whose header MAC differs from the stored one (the idealisation
+    `headerMac … tk' ≠ headerMac … tk`), opening a conforming file reports a *key* error — never a database,
+    never an integrity error. -/
+theorem C04_kdbx4 (P : Prims) (L : P.Laws) (c : Config) (t : Tape) (l : Layout) (tk ct composite' tk' : Bytes)
+    (H : HeaderOk c t l) (hk : runKdf P c.kdf t.kdfSeed composite' = .ok tk')
+    (hideal : headerMac P c t l tk' ≠ headerMac P c t l tk) :
+    decrypt P (assemble P c t l tk ct) (some composite') = .err .key :=
+  ((decrypt_until_key_check P L c t l tk ct H (some composite')).2 composite' rfl).2.2 tk' hk hideal
+
+/-- empty credentials: a key error -/
+theorem C04_empty (P : Prims) (L : P.Laws) (c : Config) (t : Tape) (l : Layout) (tk ct : Bytes)
+    (H : HeaderOk c t l) : decrypt P (assemble P c t l tk ct) none = .err .key :=
+  (decrypt_until_key_check P L c t l tk ct H none).1 rfl
+
+/-- whatever the wrong credentials are, no database is returned (the KDF may also fail on them) -/
+theorem C04_never_a_value (P : Prims) (L : P.Laws) (c : Config) (t : Tape) (l : Layout) (tk ct composite' : Bytes)
+    (H : HeaderOk c t l)
+    (hideal : ∀ tk', runKdf P c.kdf t.kdfSeed composite' = .ok tk' → headerMac P c t l tk' ≠ headerMac P c t l tk) :
+    ∀ d, decrypt P (assemble P c t l tk ct) (some composite') ≠ .ok d := by
+  intro d hd
+  have h := (decrypt_until_key_check P L c t l tk ct H (some composite')).2 composite' rfl
+  cases hk : runKdf P c.kdf t.kdfSeed composite' with
+  | ok tk' => rw [h.2.2 tk' hk (hideal tk' hk)] at hd; cases hd
+  | err e => rw [h.2.1 e hk] at hd; cases hd
+  | panic s => rw [h.1 s hk] at hd; cases hd
+
 end Kp.Fmt
